@@ -9,6 +9,8 @@ import (
 	"fmt"
 	"math/rand"
 	"os"
+	"strconv"
+	"strings"
 
 	"verif/harness/run"
 )
@@ -111,7 +113,15 @@ func cmdPlay(args []string) {
 	only := fs.Int("only", -1, "play only the behaviour with this index")
 	proj := fs.String("proj", "", "projection (property id); empty = full records")
 	seedIndex := fs.Int("seedindex", 0, "offset added to the behaviour index when seeding the concretiser (replay of one behaviour)")
+	limits := fs.String("limits", "", "comma-separated concrete limits for symbolic configurations (0 = library default)")
 	fs.Parse(args)
+	if *limits != "" {
+		run.SymLimits = nil
+		for _, f := range strings.Split(*limits, ",") {
+			n, _ := strconv.Atoi(f)
+			run.SymLimits = append(run.SymLimits, n)
+		}
+	}
 	behs := readBehaviours(*in)
 	tw := newTraceWriter(*out)
 	var pf *os.File
